@@ -62,6 +62,10 @@ Definition wie (lvl : nat) (e : expr) (s : bytes) : M := fun g =>
 Definition zero_range (e : expr) : bool :=
   (e_fi e =? 0)%N && (e_fl e =? 0)%N && (e_fc e =? 0)%N && (e_ti e =? 0)%N && (e_tl e =? 0)%N && (e_tc e =? 0)%N.
 Definition wre_nz (e : expr) : M := if zero_range e then wr (e_val e) else wre e.
+(* writePackage: Write(s) with s = Package.Expression.Value + "\n\n", mapped with the position before the write;
+   the expression is not added to the source map when its range is zero (a file without a package clause) *)
+Definition wpk (e : expr) (s : bytes) : M := fun g =>
+  if zero_range e then wr s g else add_map e (cur (w g)) (wr s g).
 Definition with_var (k : bytes -> M) : M := fun g =>
   let v := S (vid g) in k (bs (P ++ "Var") ++ decn v) (set_vid v g).
 Definition seqs (l : list M) : M := fold_right seq skip l.
@@ -354,7 +358,7 @@ Fixpoint write_fnodes (l : list fnode) : M :=
 
 Definition gen_all (f : file) : M := (wrs "// Code generated by templ - DO NOT EDIT." ;; wr [x0a; x0a] ;;
             seqs (map go_block (f_header f)) ;;
-            (fun g => add_map (f_pkg f) (cur (w g)) (wr (e_val (f_pkg f) ++ [x0a; x0a]) g)) ;;
+            wpk (f_pkg f) (e_val (f_pkg f) ++ [x0a; x0a]) ;;
             wrs "//lint:file-ignore SA4006 This context is only used if a nested component is present." ;; wr [x0a; x0a] ;;
             wrs "import ""github.com/a-h/templ""" ;; nl ;;
             wrs "import templruntime ""github.com/a-h/templ/runtime""" ;; nl ;; nl ;;
